@@ -8,7 +8,9 @@ Streams
   est      : qkeras.estimate.extract_model_operations number_of_operations vs `estOps` and the oracle.
   energy   : QTools.pe(...) for placements x min_sram_size x rd_wr_on_io vs the Lean energy model
              evaluated on oracle values of the cost polynomials (taken from the live settings.cfg).
-  extract  : extract_energy_sum / extract_energy_profile vs `extractSum` / `extractProfile` on the
+  extract  : (16 cost settings per report: empty / partial / full class lists, empty / missing default, absent
+             and near-miss class keys; clause oracle `selected_keys` written from the property text)
+             extract_energy_sum / extract_energy_profile vs `extractSum` / `extractProfile` on the
              returned dictionary, and vs an exact-fraction sum of the selected entries.
 """
 import contextlib
@@ -324,6 +326,57 @@ class Gen:
     self.run.count("gen_merge_%s_%d" % (cls, n))
     return K.Model(ins, x), n
 
+  def m_multi_out(self):
+    """shared trunk, 2-3 output heads of different classes (the output layers are NOT the last layers
+    processed one after the other only: Keras lists all heads at the end, so a later head follows an
+    earlier OUTPUT layer in energy_estimate's loop); sometimes an intermediate tensor is an output too"""
+    K, Q = self.K, self.Q
+    shape = (self.ri(4, 8), self.ri(4, 8), self.ri(1, 4))
+    x_in, x = self.head(shape)
+    x = self.conv2d(x)
+    trunk = self.act(x)
+    heads = []
+    n_heads = self.ch([2, 2, 3])
+    for _ in range(n_heads):
+      kind = self.ch(["dense", "dense", "conv", "act", "pool_dense"])
+      y = trunk
+      if kind == "dense":
+        y = K.layers.Flatten()(y)
+        y = Q.QDense(self.ri(1, 6), kernel_quantizer=self.kq(), bias_quantizer="quantized_bits(4,0,1)",
+                     use_bias=self.p(0.7))(y)
+      elif kind == "conv":
+        y = self.conv2d(y, force={"padding": "same"})
+      elif kind == "act":
+        y = self.act(y)
+      else:
+        y = K.layers.GlobalAveragePooling2D()(y)
+        y = Q.QDense(self.ri(1, 4), kernel_quantizer=self.kq(), bias_quantizer="quantized_bits(4,0,1)")(y)
+      if self.p(0.3):
+        y = self.act(y)
+      heads.append(y)
+    if self.p(0.25):
+      heads.insert(0, trunk)      # an inner tensor that is ALSO a model output
+    self.run.count("gen_multi_out_%d" % len(heads))
+    return K.Model(x_in, heads), 1
+
+  def m_multi_in(self):
+    """two model inputs, each with its own first layer (two INPUT layers), merged, then a head"""
+    K, Q = self.K, self.Q
+    shape = (self.ri(3, 6), self.ri(3, 6), self.ri(1, 4))
+    ins = [K.layers.Input(shape) for _ in range(2)]
+    bs = []
+    c = self.ri(1, 4)
+    for t in ins:
+      if self.p(0.5):
+        t = self.act(t)
+      t = Q.QConv2D(c, 1, kernel_quantizer=self.kq(), bias_quantizer="quantized_bits(4,0,1)")(t)
+      bs.append(self.act(t))
+    x = K.layers.Add()(bs)
+    x = K.layers.Flatten()(x)
+    x = Q.QDense(self.ri(1, 4), kernel_quantizer=self.kq(), bias_quantizer="quantized_bits(4,0,1)")(x)
+    self.run.count("gen_multi_in")
+    return K.Model(ins, x), 2
+
   def m_grouped(self):
     K = self.K
     g = self.ch([2, 2, 3, 4])
@@ -631,18 +684,177 @@ def cost_tables(cfg, sram_mul_factor, sizes, bits, gate, min_sram):
 KEYS = ["inputs", "outputs", "parameters", "op_cost"]
 
 
+def selected_keys(cfg_setting, class_name):
+  """the entries a cost setting selects for a layer class, written from the property text (NOT with the
+  code's `get(class, get("default", []))` expression): the list registered for the class — also when that
+  list is empty, i.e. "count nothing" —, the "default" list only for classes the setting does not
+  mention, nothing when there is no "default" either"""
+  if class_name in cfg_setting:
+    return list(cfg_setting[class_name])
+  if "default" in cfg_setting:
+    return list(cfg_setting["default"])
+  return []
+
+
 def exact_extract(cfg_setting, energy_dict):
-  """clause oracle for extract_energy_sum: exact-fraction sum of the selected entries"""
+  """clause oracle for extract_energy_sum / extract_energy_profile: exact-fraction sum of the selected
+  entries, per layer and in total"""
   tot = F(0)
   prof = {}
   for name, row in energy_dict.items():
     if name == "total_cost":
       continue
-    keys = cfg_setting.get(row["class_name"], cfg_setting.get("default", []))
-    s = sum((F(row["energy"][k]) for k in keys), F(0))
+    s = sum((F(row["energy"][k]) for k in selected_keys(cfg_setting, row["class_name"])), F(0))
     prof[name] = s
     tot += s
   return tot, prof
+
+
+def extract_settings(g2, classes, live):
+  """cost settings (the `cfg_setting` / include_energy dictionaries) aimed at the case split of the key
+  lookup: class listed / not listed, list empty / partial / full, "default" present / empty / missing,
+  keys of classes that do not occur in the model, near-miss class names.  `g2` draws from its own PRNG
+  stream (seeded from VERIF_SEED) so that the model generator's stream is untouched."""
+  def sub(nonempty=False):
+    ks = [k for k in KEYS if g2.p(0.5)]
+    if nonempty and not ks:
+      ks = [g2.ch(KEYS)]
+    g2.rng.shuffle(ks)
+    return [str(k) for k in ks]
+  cls = list(dict.fromkeys(classes))
+  c0 = g2.ch(cls)
+  out = [("live_include_energy", dict(live))]
+  # the library's own setting with one class of the model switched off / the default switched off
+  out.append(("live_class_emptied", dict(live, **{c0: []})))
+  out.append(("live_default_emptied", dict(live, default=[])))
+  out.append(("default_subset", {"default": sub()}))
+  out.append(("no_default", {c0: sub(True)}))
+  out.append(("class_override", {"default": sub(True), g2.ch(cls): [g2.ch(KEYS)], "QActivation": ["outputs"]}))
+  # "count nothing for this class" next to a non-empty default (the falsy-but-legal list)
+  out.append(("empty_class_full_default", {c0: [], "default": list(KEYS)}))
+  out.append(("empty_class_some_default", {g2.ch(cls): [], "default": sub(True)}))
+  # every class of the model switched off: the sum must be 0 whatever the default says
+  out.append(("all_classes_empty", dict({c: [] for c in cls}, default=list(KEYS))))
+  out.append(("empty_default_some_class", {"default": [], c0: sub(True)}))
+  out.append(("empty_setting", {}))
+  out.append(("only_absent_classes", {"NoSuchLayer": list(KEYS), "QNoSuchLayer": sub(True)}))
+  out.append(("absent_classes_and_default", {"NoSuchLayer": list(KEYS), "default": sub()}))
+  # near-miss names: the Q-less / Q-prefixed twin of a class of the model, a prefix, another case; none of
+  # them names the class, so the default applies
+  near = {}
+  for c in cls:
+    twin = c[1:] if c.startswith("Q") else "Q" + c
+    for nm in (twin, c[:-1], c.lower(), c + "2"):
+      if nm not in cls and nm != "default" and g2.p(0.6):
+        near[nm] = sub()
+  near["default"] = sub(True)
+  out.append(("near_miss_names", near))
+  # free mix: every class independently absent / [] / partial / full, default absent / [] / partial
+  for i in range(2):
+    cs = {}
+    for c in cls + ["NoSuchLayer"]:
+      r = g2.ri(0, 3)
+      if r == 1:
+        cs[c] = []
+      elif r == 2:
+        cs[c] = sub(True)
+      elif r == 3:
+        cs[c] = list(KEYS)
+    r = g2.ri(0, 2)
+    if r == 1:
+      cs["default"] = []
+    elif r == 2:
+      cs["default"] = sub(True)
+    out.append(("mix%d" % i, cs))
+  return out
+
+
+# ----------------------------------------------------------------------------- documented energy entries
+
+def doc_memory_energy(cfg, mul_factor, elems, bits, mode, min_sram, rd_wr_on_io, io_layer):
+  """the documented energy of moving one tensor (qenergy docstrings, theorems C19_entry_memory_read /
+  _memory_write / _parameters_*): a tensor of an io layer lives in DRAM iff rd_wr_on_io, whatever the
+  configured placement; DRAM access = dram polynomial (+ one SRAM access when rd_wr_on_io stages it);
+  SRAM access = ceil(bits * mul_factor) * sram polynomial(log2 max(bits, min_sram)); fixed = free; every
+  polynomial clamped at 0.  Written here from that description, evaluated in float64 on the live cfg."""
+  if io_layer:
+    mode = "dram" if rd_wr_on_io else "sram"
+  tb = elems * bits
+  with np.errstate(all="ignore"):
+    sram = float(np.ceil(tb * mul_factor) * max(cfg.sram_rd(np.log2(max(tb, min_sram))), 0))
+    dram = float(max(cfg.dram_rd(tb), 0))
+  if mode == "dram":
+    return dram + (sram if rd_wr_on_io else 0.0)
+  if mode == "sram":
+    return sram
+  return 0.0
+
+
+def keras_io_layers(model):
+  """input / output layers read off the Keras graph (not from QTools' layer map): a layer fed by a model
+  input; a layer none of whose outputs is consumed inside the model (qtools' convention: the sinks of the
+  layer graph — a tensor that is consumed AND listed in model.outputs does not make its layer an output
+  layer; that convention belongs to the graph builder, C19 takes it as given)"""
+  ins, outs = set(), set()
+  in_ids = {id(t) for t in model.inputs}
+  consumed = set()
+  for layer in model.layers:
+    if layer.__class__.__name__ == "InputLayer":
+      continue
+    li = layer.input if isinstance(layer.input, list) else [layer.input]
+    for t in li:
+      consumed.add(id(t))
+    if any(id(t) in in_ids for t in li):
+      ins.add(layer.name)
+  for layer in model.layers:
+    if layer.__class__.__name__ == "InputLayer":
+      continue
+    lo = layer.output if isinstance(layer.output, list) else [layer.output]
+    if not any(id(t) in consumed for t in lo):
+      outs.add(layer.name)
+  return ins, outs
+
+
+def doc_entries(cfg, mul_factor, model, out_dict, io, opts):
+  """{layer: {"inputs"|"outputs"|"parameters": documented value}} from the REPORTED data of
+  QTools._output_dict (types, tensor shapes) and the options of ONE pe() call"""
+  wm, am, ms, rdwr = opts
+  ins, outs = io
+  res = {}
+  for layer in model.layers:
+    d = out_dict.get(layer.name)
+    if not isinstance(d, dict) or "output_quantizer" not in d:
+      continue
+    ish = layer.input_shape if isinstance(layer.input_shape, list) else [layer.input_shape]
+    e = {}
+    try:
+      e["inputs"] = sum(doc_memory_energy(cfg, mul_factor, _prod(list(sh)[1:]), q["bits"], am, ms, rdwr,
+                                          layer.name in ins)
+                        for sh, q in zip(ish, d["input_quantizer_list"]))
+      oq = d["output_quantizer"]
+      e["outputs"] = doc_memory_energy(cfg, mul_factor, _prod(list(oq["shape"])[1:]), oq["bits"], am, ms, rdwr,
+                                       layer.name in outs)
+      cls = layer.__class__.__name__
+      if cls not in ("BatchNormalization", "QBatchNormalization"):
+        par = 0.0
+        wq = d.get("weight_quantizer")
+        if wq is not None and wq.get("shape") is not None:
+          shp = wq["shape"]
+          par += doc_memory_energy(cfg, mul_factor, _prod(shp) if isinstance(shp, (list, tuple)) else int(shp),
+                                   wq["bits"], wm, ms, rdwr, False)
+          bq = d.get("bias_quantizer")
+          if bq:
+            shp = bq["shape"]
+            par += doc_memory_energy(cfg, mul_factor, _prod(shp) if isinstance(shp, (list, tuple)) else int(shp),
+                                     bq["bits"], wm, ms, rdwr, False)
+        e["parameters"] = par
+    except (KeyError, TypeError):
+      continue
+    res[layer.name] = e
+  return res
+
+
+LATTICE = [(w, a, io) for w in ("dram", "sram", "fixed") for a in ("dram", "sram") for io in (True, False)]
 
 
 # ----------------------------------------------------------------------------- the check
@@ -660,6 +872,8 @@ def run(run: core.Run, tier: str):
   rng = np.random.default_rng(run.seed)
   gv = qtools_util.get_val
   gen = Gen(rng, run, K, Q)
+  g2 = Gen(np.random.default_rng([int(run.seed), 1904]), run, K, Q)   # cost settings: own stream
+  g3 = Gen(np.random.default_rng([int(run.seed), 1905]), run, K, Q)   # pe() histories: own stream
   n_models = 150 if tier == "quick" else 900
   run.extra["rule"] = (
       "random Keras/QKeras models (legacy tf_keras): Conv2D/QConv2D, Conv1D/QConv1D, (Q)DepthwiseConv2D, "
@@ -669,7 +883,16 @@ def run(run: core.Run, tier: str):
       "channels 1..8, spatial 4..12, groups, depth_multiplier, 7 kernel quantizers x 6 activation "
       "quantizers; every model x 3 of 12 memory placements (weights dram/sram/fixed x activations "
       "dram/sram x rd_wr_on_io x min_sram_size 0/2^k) x live and perturbed cost polynomials; "
-      "non-trivial = distinct (class, geometry) layer or distinct (model, placement)")
+      "extract_energy_sum / extract_energy_profile: every report x 16 cost settings on the first placement "
+      "(4 on the others) aimed at the key lookup: class listed with an EMPTY / partial / full list, "
+      "'default' empty / partial / full / missing, the live include_energy with one class of the model or "
+      "the default emptied, every class of the model emptied, {} , keys of classes absent from the model, "
+      "near-miss class names (Q-less / Q-prefixed twin, prefix, lower case), two free mixes; "
+      "multi-output (2-3 heads) and two-input models; HISTORIES on one QTools object: 16 pe() calls per model "
+      "(the 3 compared placements, the full 12-point placement lattice in a seeded order, the first call "
+      "again), every call judged entry by entry against the documented formula on _output_dict data; every "
+      "5th model against a fresh QTools twin; "
+      "non-trivial = distinct (class, geometry) layer or distinct (model, placement) or distinct later call")
   run.assumptions += [
       "Keras compute_output_shape / conv_output_length is trusted Keras code; its result is compared with "
       "the Lean convOutLen and with the shape of a real forward pass for every generated layer",
@@ -686,7 +909,8 @@ def run(run: core.Run, tier: str):
   builders = [("conv2d", gen.m_conv2d, 30), ("conv1d", gen.m_conv1d, 14), ("dense", gen.m_dense, 10),
               ("dense_se", gen.m_dense_se, 3), ("dense_lead", gen.m_dense_lead, 2), ("pool", gen.m_pool, 14),
               ("merge", gen.m_merge, 10), ("grouped", gen.m_grouped, 6), ("dw_mult", gen.m_dw_mult, 5),
-              ("sep", gen.m_sep, 6), ("qpool", gen.m_qpool, 5)]
+              ("sep", gen.m_sep, 6), ("qpool", gen.m_qpool, 5), ("multi_out", gen.m_multi_out, 12),
+              ("multi_in", gen.m_multi_in, 4)]
   weights = np.array([b[2] for b in builders], dtype=float)
   weights /= weights.sum()
 
@@ -823,7 +1047,7 @@ def run(run: core.Run, tier: str):
     for _ in range(3):
       placements.append((gen.ch(["dram", "sram", "fixed"]), gen.ch(["dram", "sram"]),
                          gen.ch([0, 0, 64, 4096, 2 ** 20, 8 * 16 * 1024 * 1024]), gen.p(0.5)))
-    for (wm, am, ms, rdwr) in placements:
+    for pi_, (wm, am, ms, rdwr) in enumerate(placements):
       err = None
       try:
         with _quiet(), np.errstate(all="ignore"):
@@ -840,20 +1064,114 @@ def run(run: core.Run, tier: str):
       if ed is None:
         continue
       # ---------------------------------------------------------- extract_energy_sum / profile
-      settings_list = [("live_include_energy", dict(qsettings.cfg.include_energy))]
-      ks = [k for k in KEYS if gen.p(0.5)]
-      settings_list.append(("default_subset", {"default": ks}))
-      settings_list.append(("no_default", {recs[0][1]["cls"]: ["outputs", "op_cost"]}))
-      settings_list.append(("class_override", {"default": ["inputs", "parameters", "op_cost"],
-                                               recs[-1][1]["cls"]: [gen.ch(KEYS)], "QActivation": ["outputs"]}))
-      for sname, cs in settings_list[: (4 if mi % 3 == 0 else 2)]:
+      ed_layers = [n for n in ed if n != "total_cost"]
+      settings_list = extract_settings(g2, [ed[n]["class_name"] for n in ed_layers], qsettings.cfg.include_energy)
+      if pi_ != 0:
+        # every placement gets the live setting and the falsy-list cases, the first placement everything
+        keep = {"live_include_energy", "live_class_emptied", "empty_class_full_default", "mix0"}
+        settings_list = [t for t in settings_list if t[0] in keep]
+      for sname, cs in settings_list:
         with _quiet():
           s_impl = qt.extract_energy_sum(cs, ed)
           p_impl = qt.extract_energy_profile(cs, ed)
-        rows = [[ed[n]["class_name"], [core.rj(ed[n]["energy"][k]) for k in KEYS]] for n in ed if n != "total_cost"]
+        rows = [[ed[n]["class_name"], [core.rj(ed[n]["energy"][k]) for k in KEYS]] for n in ed_layers]
         extract_lines.append({"op": "extract", "cfg": cs, "rows": rows})
-        extract_meta.append((mname, sname, cs, ed, int(s_impl),
-                             [p_impl[n]["total"] for n in ed if n != "total_cost"]))
+        shape_ok = (list(p_impl.keys()) == ed_layers and
+                    all(p_impl[n].get("energy") == ed[n]["energy"] for n in ed_layers))
+        extract_meta.append((mname, sname, cs, ed, s_impl,
+                             [p_impl[n]["total"] for n in ed_layers] if shape_ok else None))
+    # ---------------------------------------------------------- pe() histories on ONE QTools object
+    # every entry of every call is recomputed from the documented formula on the REPORTED data
+    # (`_output_dict`) and the options of THAT call: the k-th call must be what a first call would be.
+    if any(m[4] is not None for m in energy_meta[-len(placements):]):
+      io_layers = keras_io_layers(model)
+      mulf = qenergy.OP["sram"]["mul_factor"]
+      n_outputs = len(model.outputs)
+      history = [(plc, m[4]) for plc, m in zip(placements, energy_meta[-len(placements):])]
+      walk_ms = g3.ch([0, 0, 4096, 2 ** 20])
+      order = [LATTICE[int(i)] for i in g3.rng.permutation(len(LATTICE))]
+      walk = [(w, a, walk_ms, io) for (w, a, io) in order]
+      walk.append(placements[0])                      # the very first call again, at the end
+      for opts in walk:
+        try:
+          with _quiet(), np.errstate(all="ignore"):
+            edk = qt.pe(weights_on_memory=opts[0], activations_on_memory=opts[1], min_sram_size=opts[2],
+                        rd_wr_on_io=opts[3])
+        except Exception as e:  # pylint: disable=broad-except
+          edk = None
+          run.count("pe_history_raises_%s" % type(e).__name__)
+        history.append((opts, edk))
+      run.count("pe_history_calls", len(history))
+      for k, (opts, edk) in enumerate(history):
+        if edk is None:
+          continue
+        run.case(("pe_history", mname, k, opts), nontrivial=(k >= len(placements)))
+        doc = doc_entries(qsettings.cfg, mulf, model, qt._output_dict, io_layers, opts)
+        tot = F(0)
+        for lname, row in edk.items():
+          if lname == "total_cost":
+            continue
+          for kk in KEYS:
+            tot += F(row["energy"][kk])
+          if lname not in doc:
+            run.count("energy_documented_skipped_layer")
+            continue
+          role = ("input+output" if (lname in io_layers[0] and lname in io_layers[1]) else
+                  "input" if lname in io_layers[0] else "output" if lname in io_layers[1] else "inner")
+          for kk, dv in doc[lname].items():
+            rep = row["energy"][kk]
+            run.count("energy_documented_%s_%s" % (kk, role))
+            if not (abs(rep - dv) <= 0.01 + 1e-9 * abs(dv)):
+              run.violate("energy_entry_is_documented_function",
+                          {"stream": "energy_documented", "entry": kk, "layer_role": role,
+                           "call": "first" if k == 0 else "later",
+                           "model_outputs": "single" if n_outputs == 1 else "multi"},
+                          {"model": mname, "layers": [(l.name, l.__class__.__name__) for l in model.layers],
+                           "output_layers": sorted(io_layers[1]), "input_layers": sorted(io_layers[0]),
+                           "call_index": k, "options": {"weights_on_memory": opts[0], "activations_on_memory": opts[1],
+                                                        "min_sram_size": opts[2], "rd_wr_on_io": opts[3]},
+                           "earlier_calls_on_this_object": [list(h[0]) for h in history[:k]],
+                           "layer": lname, "class_name": row["class_name"], "entry": kk, "reported": rep,
+                           "documented": dv, "reported_types": qt._output_dict.get(lname),
+                           "replay": "qt = QTools(model, ...); pe(*earlier calls); qt.pe(**options)[layer]['energy'][entry]"},
+                          mirrored=False)
+        T = edk["total_cost"]
+        slack = F(2, 100) * (len(edk) - 1) + F(1, 10 ** 6) * max(1, abs(int(T)))
+        if not (tot - slack - 1 < T <= tot + slack):
+          run.violate("total_is_sum_of_entries", {"stream": "energy_documented", "clause_detail": "total_vs_rows"},
+                      {"model": mname, "call_index": k, "options": list(opts), "total_cost": T,
+                       "sum_of_reported_entries": float(tot)}, mirrored=False)
+      # the same options twice on one object, and (every 5th model) on a FRESH QTools object
+      first, last = history[0], history[-1]
+      if first[1] is not None and last[1] is not None and first[1] != last[1]:
+        diff = [(n, kk) for n in first[1] if n != "total_cost" for kk in KEYS
+                if first[1][n]["energy"][kk] != last[1].get(n, {}).get("energy", {}).get(kk)]
+        run.violate("pe_history_independent", {"stream": "energy_documented", "twin": "same_object_repeat"},
+                    {"model": mname, "options": list(first[0]), "calls_in_between": [list(h[0]) for h in history[1:-1]],
+                     "entries_that_changed": diff[:8], "first": first[1], "repeat": last[1]}, mirrored=False)
+      if mi % 5 == 0:
+        try:
+          with _quiet(), np.errstate(all="ignore"):
+            qt2 = run_qtools.QTools(model, process=process,
+                                    source_quantizers=[Q.quantizers.get_quantizer(s) for s in srcq],
+                                    is_inference=False, weights_path=None, keras_quantizer="fp32",
+                                    keras_accumulator="fp32", for_reference=for_reference)
+            k2 = len(history) - 2
+            o2 = history[k2][0]
+            ed2 = qt2.pe(weights_on_memory=o2[0], activations_on_memory=o2[1], min_sram_size=o2[2], rd_wr_on_io=o2[3])
+        except Exception as e:  # pylint: disable=broad-except
+          ed2 = None
+          run.count("pe_twin_raises_%s" % type(e).__name__)
+        if ed2 is not None and history[k2][1] is not None:
+          run.count("pe_fresh_twin_compared")
+          if ed2 != history[k2][1]:
+            diff = [(n, kk) for n in ed2 if n != "total_cost" for kk in KEYS
+                    if ed2[n]["energy"][kk] != history[k2][1].get(n, {}).get("energy", {}).get(kk)]
+            run.violate("pe_history_independent", {"stream": "energy_documented", "twin": "fresh_object"},
+                        {"model": mname, "call_index": k2, "options": list(o2),
+                         "earlier_calls_on_the_reused_object": [list(h[0]) for h in history[:k2]],
+                         "entries_that_differ": diff[:8], "reused_object": history[k2][1], "fresh_object": ed2},
+                        mirrored=False)
   if orig_polys is not None:
     for k, v in orig_polys.items():
       setattr(qsettings.cfg, k, v)
@@ -869,12 +1187,18 @@ def run(run: core.Run, tier: str):
     ms = gen.ch([0, 64, 4096, 2 ** 20])
     io = gen.p(0.5)
     rdwr = gen.p(0.5)
-    with np.errstate(all="ignore"):
-      r = float(qenergy.memory_read_energy(io, shape, mode, ms, rdwr, bits))
-      w = float(qenergy.memory_write_energy(io, shape, mode, ms, rdwr, bits))
-      eff = ("dram" if rdwr else "sram") if io else mode
-      r_eff = float(qenergy.memory_read_energy(False, shape, eff, ms, rdwr, bits))
-      r_flat = float(qenergy.memory_read_energy(False, (_prod(shape[1:]),), eff, ms, rdwr, bits, is_tensor=False))
+    eff = ("dram" if rdwr else "sram") if io else mode
+    try:
+      with np.errstate(all="ignore"):
+        r = float(qenergy.memory_read_energy(io, shape, mode, ms, rdwr, bits))
+        w = float(qenergy.memory_write_energy(io, shape, mode, ms, rdwr, bits))
+        r_eff = float(qenergy.memory_read_energy(False, shape, eff, ms, rdwr, bits))
+        r_flat = float(qenergy.memory_read_energy(False, (_prod(shape[1:]),), eff, ms, rdwr, bits, is_tensor=False))
+    except TypeError:
+      # the signature of these INTERNAL helpers is not part of the property: the pe()-level clause
+      # energy_entry_is_documented_function judges the same facts through the public route
+      run.count("component_helper_signature_changed")
+      continue
     run.case(("component", shape, bits, mode, ms, io, rdwr))
     run.count("component_%s%s" % (eff, "_io" if io else ""))
     key = {"stream": "component", "effective_mode": eff, "io_layer": io, "rd_wr_on_io": rdwr}
@@ -1040,27 +1364,65 @@ def run(run: core.Run, tier: str):
     run.case(("extract", mname, sname, s_impl))
     run.compared += 1
     run.count("extract_" + sname)
+    ed_layers = [n for n in ed if n != "total_cost"]
+    ed_classes = [ed[n]["class_name"] for n in ed_layers]
+    # which branch of the key lookup each layer takes (the case split of `selectKeys` / C19_extract_keys)
+    for c in dict.fromkeys(ed_classes):
+      if c in cs:
+        run.count("extract_lookup_class_" + ("empty" if len(cs[c]) == 0 else
+                                             "full" if len(cs[c]) == len(KEYS) else "partial"))
+      elif "default" in cs:
+        run.count("extract_lookup_default_" + ("empty" if len(cs["default"]) == 0 else
+                                               "full" if len(cs["default"]) == len(KEYS) else "partial"))
+      else:
+        run.count("extract_lookup_nothing")
     raw = core.unrj(o["raw_sum"])
     near = abs(raw - round(raw)) < F(1, 10 ** 6)
     mirrored = True
-    if s_impl == o["sum"]:
+    if type(s_impl) is int and s_impl == o["sum"]:
       pass
-    elif near and abs(s_impl - o["sum"]) <= 1:
+    elif type(s_impl) is int and near and abs(s_impl - o["sum"]) <= 1:
       run.count("extract_band")
     else:
       mirrored = False
       run.disagree("extract_energy_sum", {"setting": cs, "rows": ed}, s_impl, o["sum"])
-    for a, b in zip(p_impl, o["profile"]):
-      if abs(F(a) - core.unrj(b)) > F(1, 10 ** 6) * max(1, abs(core.unrj(b))):
-        mirrored = False
-        run.disagree("extract_energy_profile", {"setting": cs}, a, float(core.unrj(b)))
-    # clause oracle: exact sum of the selected entries, computed here from the dictionary
-    tot, _ = exact_extract(cs, ed)
+    if p_impl is None:
+      mirrored = False
+      run.disagree("extract_energy_profile", {"setting": cs}, "layers / energy rows differ from the report", "same")
+    else:
+      for a, b in zip(p_impl, o["profile"]):
+        if abs(F(a) - core.unrj(b)) > F(1, 10 ** 6) * max(1, abs(core.unrj(b))):
+          mirrored = False
+          run.disagree("extract_energy_profile", {"setting": cs}, a, float(core.unrj(b)))
+    # clause oracle (C19_extract): exact sum of the entries the setting selects, computed here from the
+    # dictionary with `selected_keys` (independent of the model and of the code's lookup expression)
+    tot, prof = exact_extract(cs, ed)
+    branches = sorted({("class_empty" if (c in cs and len(cs[c]) == 0) else "class" if c in cs else
+                        "default" if "default" in cs else "nothing") for c in ed_classes})
     lo = math.floor(tot - F(1, 10 ** 6))
     hi = math.floor(tot + F(1, 10 ** 6))
-    if not (lo <= s_impl <= hi):
+    if type(s_impl) is not int or not (lo <= s_impl <= hi):
       run.violate("extract_sum_is_sum_of_selected", {"stream": "extract", "setting": sname},
-                  {"setting": cs, "extract_energy_sum": s_impl, "exact_sum": float(tot), "rows": ed},
+                  {"setting": cs, "extract_energy_sum": s_impl, "exact_sum": float(tot),
+                   "floor_of_exact_sum": math.floor(tot), "lookup_branches": branches,
+                   "classes": ed_classes, "rows": ed,
+                   "replay": "QTools.extract_energy_sum(setting, rows)"},
+                  mirrored=mirrored)
+    # clause oracle for the profile: same layers, rows untouched, per-layer total = the selected entries
+    bad = None
+    if p_impl is None:
+      bad = {"what": "profile layers / energy rows differ from the report"}
+    else:
+      for n, a in zip(ed_layers, p_impl):
+        if abs(F(a) - prof[n]) > F(1, 10 ** 9) * max(1, abs(prof[n])):
+          bad = {"layer": n, "class_name": ed[n]["class_name"], "profile_total": a,
+                 "selected_keys": selected_keys(cs, ed[n]["class_name"]), "exact_sum": float(prof[n]),
+                 "energy": ed[n]["energy"]}
+          break
+    if bad is not None:
+      run.violate("extract_profile_total_is_sum_of_selected", {"stream": "extract", "setting": sname},
+                  dict(bad, setting=cs, lookup_branches=branches,
+                       replay="QTools.extract_energy_profile(setting, rows)[layer]['total']"),
                   mirrored=mirrored)
   run.extra["streams"] = {"count": len(count_lines), "spec": len(spec_lines), "estimate": len(est_lines),
                           "energy": len(energy_lines), "extract": len(extract_lines)}
